@@ -521,7 +521,7 @@ fn gen_history(rng: &mut Rng, thorough: bool) -> Vec<Value> {
             op_bind(&m)
         } else if c < 94 {
             op_simple("reopen")
-        } else if c < 99 || !thorough {
+        } else if c < 99 || !thorough || !rng.chance(1, 8) {
             op_simple("commit")
         } else {
             op_simple("put") // put_bytes + commit rebuilds the indexes: seconds per call, thorough tier only
@@ -690,7 +690,7 @@ fn main() {
         record(&h, &out, &mut sum, &mut drv);
     }
     let mut rng = Rng::new(args.seed);
-    let n = if args.thorough { 2500 } else { 160 };
+    let n = if args.thorough { 1500 } else { 160 };
     for _ in 0..n {
         let h = gen_history(&mut rng, args.thorough);
         let out = run_history(&h, &mut drv);
